@@ -946,6 +946,10 @@ def oracle(ctx):
     repo = ctx.repo
     t0 = time.time()
     budget = ctx.time_left()
+    # every temporary file (FIFOs of the semaphore runs, Bob's own job server FIFO in the children) below ctx.tmp
+    import tempfile
+    os.environ["TMPDIR"] = ctx.tmp
+    tempfile.tempdir = ctx.tmp
     # (b) controlled runs of the real builder: children run while the rest goes on
     base = os.path.join(ctx.tmp, "ctl")
     os.makedirs(base)
@@ -1128,11 +1132,15 @@ def correspond(ctx):
     sem = _STATE.get("sem", [])
     reqs = []
     plan = []
+    n_explore = 0
     for c, o in ctl:
         rq, ex = model_requests(o)
         # a few random schedules of the model on the same project, all invariants evaluated at every step
-        extra = [{"op": "explore", "seed": ctx.seed * 7919 + len(plan), "runs": ctx.scale(6, 40), "maxsteps": 3000,
-                  "failmod": fm, "takes": 3} for fm in (0, 3)]
+        extra = []
+        if ctx.tier != "quick" or (n_explore < 12 and ctx.time_left() > 0.1 * ctx.budget):
+            n_explore += 1
+            extra = [{"op": "explore", "seed": ctx.seed * 7919 + len(plan), "runs": ctx.scale(6, 40), "maxsteps": 3000,
+                      "failmod": fm, "takes": 3} for fm in (0, 3)]
         plan.append(("ctl", c, o, rq, ex, len(rq), len(extra)))
         reqs += rq + extra
     for res in sem:
@@ -1173,6 +1181,9 @@ def correspond(ctx):
 
 
 def replay(ctx, case):
+    import tempfile
+    os.environ["TMPDIR"] = ctx.tmp
+    tempfile.tempdir = ctx.tmp
     k = case.get("kind")
     if k == "sem":
         res = sem_alone_run(tuple([ctx.repo] + list(case["args"])))
@@ -1207,14 +1218,24 @@ def replay(ctx, case):
 
 
 MANIFEST = {
-    "text": "Proved in Lean (Props/C06.lean) about a hand-written model of LocalBuilder.cook's cooperative scheduler and of "
-            "JobServerSemaphore / BoundedSemaphore / asyncio.Lock, for all projects, job counts and schedules: see the file for the "
-            "list (tokens_conserved, tokens_returned, release_never_raises, no_lost_wakeup, running_le_jobs, ...). The model is tied "
-            "to the current source by replaying, event by event and state by state, the schedules that the REAL cook (bob dev "
-            "in-process on a real asyncio loop with harness-controlled script completion) and the real JobServerSemaphore on a real "
-            "FIFO took. The property oracle runs on the implementation traces and on real subprocess builds.",
-    "note": "trusted: Lean kernel, harness/props/c06.py + harness/gen/c06_child.py, CPython 3.12 asyncio (cooperative contract, "
-            "Semaphore/Lock semantics as modelled and validated differentially); not covered: SIGINT/cancellation, restart round of "
-            "live build-ids, downloads, shared packages, fingerprint scripts, real time",
+    "text": "Proved in Lean (Props/C06.lean), for all projects (any step lists: shared nodes, shared workspaces, sandbox and "
+            "checkoutOnly variants), all job counts, all schedules (any interleaving of task operations, script ends with success "
+            "or failure, reader callbacks, child-make token traffic), with and without keep-going, about a hand-written model of "
+            "LocalBuilder.cook's cooperative scheduler, JobServerSemaphore (internal and external job server), BoundedSemaphore "
+            "and asyncio.Lock: tokens_conserved (pipe + held + child = n; held = owners incl. hand-overs in flight; waiter "
+            "accounting), tokens_returned (terminal configurations give every token back), release_never_raises, "
+            "release_without_token_raises, no_lost_wakeup (safety form + callback progress), running_le_jobs, owners_le_jobs, "
+            "exclusive (never two scripts in one workspace), scripts_only_under_lock, lock_holders_le_one, lock_accounting, "
+            "unlock_never_raises, no_internal_error, failure_stops_build / check_fails_when_stopped (no keep-going), "
+            "keep_going_never_stops, events_of_a_step, wasrun_lookup_exact / cook_filter_exact (under PathVid). NOT proved, kept "
+            "as `_goal` definitions whose executable forms are evaluated on every replayed and explored schedule: deps_first, "
+            "once (at most one execution per workspace unless the previous one failed), schedule_independent; "
+            "keepgoing_complete (DESIGN 5c) is refuted by implementation traces. The model is tied to the current source by "
+            "replaying, event by event and state by state, the schedules that the REAL cook (bob dev in-process on a real asyncio "
+            "loop with harness-controlled script completion) and the real JobServerSemaphore on a real FIFO took; the property "
+            "oracle runs on the implementation traces and on real subprocess builds (-j1 vs -jN).",
+    "note": "trusted: Lean kernel, harness/props/c06.py + harness/gen/c06_child.py + harness/gen/c06_projects.py, CPython 3.12 "
+            "asyncio (cooperative contract, Semaphore/Lock semantics as modelled and validated differentially); not covered: "
+            "SIGINT/cancellation, restart round of live build-ids, downloads, shared packages, fingerprint scripts, audit, real time",
     "technique": "Lean 4 proof over hand-written model + schedule-replay correspondence + trace oracle",
 }
